@@ -347,7 +347,7 @@ def rehome(F: Facts) -> Facts:
     new._cg = None
     new._rev = None
     new._closures_by_region = None
-    mapping = {}
+    homes = {}
     for k, g in sorted(F.funcs.items()):
         if g.is_closure() or g.generated or k in ref or g.nblocks == 0 or g.impl_trait is not None:
             continue
@@ -356,11 +356,18 @@ def rehome(F: Facts) -> Facts:
         uses = F.callers_of(k)
         regions = {region_of(f.key) for f, kind, _, _ in uses}
         regions.discard(k)
-        if len(regions) != 1:
-            continue
-        home = next(iter(regions))
-        home = mapping.get(home, home)
-        home = region_of(home)
+        if len(regions) == 1:
+            homes[k] = next(iter(regions))
+    # a helper called from another fresh helper ends up in that helper's home
+    def final_home(k, depth=0):
+        h = homes[k]
+        while h in homes and depth < 8:
+            h = homes[h]
+            depth += 1
+        return h
+    mapping = {}
+    for k in homes:
+        home = final_home(k)
         mapping[k] = f"{home}::{{closure#h.{k.rsplit('::', 1)[-1]}}}"
         for c in F.funcs.values():
             if c.is_closure() and c.region == k:
